@@ -585,7 +585,7 @@ def w_manager_history(ctx, rng, i):
     for step in range(n_ops):
         op = ["set", "set", "set", "get", "delete", "iterate", "copy", "assign_to_owner", "transform_owner", "none_key",
               "edit_assigned", "bad_dims", "bad_type", "edit_stored", "set_own_group", "set_own_group", "assign_own_manager",
-              "delete_none_key", "empty_group_and_dimension_change", "bulk_update", "bulk_update_mixed", "convert_owner", "setdefault"][rng.integers(0, 23)]
+              "delete_none_key", "empty_group_and_dimension_change", "bulk_update", "bulk_update_mixed", "convert_owner", "setdefault", "set_group_without_points", "none_key", "bad_dims"][rng.integers(0, 26)]
         if op == "set":
             name = NAMES[rng.integers(0, len(NAMES))]
             val = gen.shape(rng, None, d=d, n=int(rng.integers(3, 7)))
@@ -718,6 +718,14 @@ def w_manager_history(ctx, rng, i):
                     pass
             del lm["zz empty"]
             del model["zz empty"]
+        elif op == "set_group_without_points":
+            # a placeholder group (no point annotated yet): a group like any other - it counts for the None key, it has a
+            # dimensionality
+            name = NAMES[rng.integers(0, len(NAMES))]
+            val = ms.PointCloud(np.zeros((0, d)))
+            lm[name] = val
+            model[name] = digest(val)
+            ctx.bump("groups_without_points")
         elif op == "setdefault":
             # the mapping interface's "assign unless it is there": an assignment like any other when the name is new (an owned copy,
             # the one dimensionality enforced), the stored group when it is not
